@@ -691,7 +691,7 @@ func r14Reader(c *RuleCtx) {
 				}
 			case *ssa.Return:
 				_, ns := errorOfReturn(x)
-				acc.okRet = ns == isNil
+				acc.okRet = ns != nonNil // success, or whatever a trailing validation helper answers
 				results = append(results, acc)
 				return
 			case *ssa.If:
@@ -903,46 +903,73 @@ func r14CallSites(c *RuleCtx) {
 				desc = "const 0"
 				a = ssa.NewConst(nil, types.Typ[types.Uint64])
 			}
-			r := root(a)
-			switch x := r.(type) {
-			case *ssa.UnOp:
-				if sn, fld, _, ok := loadedField(x); ok {
-					desc = sn + "." + fld
-				}
-			case *ssa.Extract:
-				if call, ok := x.Tuple.(*ssa.Call); ok {
-					if f := call.Call.StaticCallee(); f != nil {
-						desc = f.Name() + "." + f.Signature.Results().At(x.Index).Name()
+			// a value chosen between alternatives (the lone-segment copy takes the segment's own footer
+			// values, the general path what mergeToWriter returns) must be in its role either way
+			var describe func(v ssa.Value, depth int) []string
+			describe = func(v ssa.Value, depth int) []string {
+				r := root(v)
+				d := ""
+				switch x := r.(type) {
+				case *ssa.Phi:
+					if depth < 3 {
+						var out []string
+						for _, e := range x.Edges {
+							if e == ssa.Value(x) {
+								continue
+							}
+							out = append(out, describe(e, depth+1)...)
+						}
+						return out
+					}
+				case *ssa.UnOp:
+					if sn, fld, _, ok := loadedField(x); ok {
+						d = sn + "." + fld
+					}
+				case *ssa.Extract:
+					if call, ok := x.Tuple.(*ssa.Call); ok {
+						if f := call.Call.StaticCallee(); f != nil {
+							d = f.Name() + "." + f.Signature.Results().At(x.Index).Name()
+						}
+					}
+				case *ssa.Call:
+					if f := x.Call.StaticCallee(); f != nil {
+						d = f.Name() + "()"
+					}
+				case *ssa.Parameter:
+					d = "param " + x.Name()
+				case *ssa.Const:
+					if k, ok := constUint64(x); ok {
+						d = fmt.Sprintf("const %d", k)
 					}
 				}
-			case *ssa.Call:
-				if f := x.Call.StaticCallee(); f != nil {
-					desc = f.Name() + "()"
-				}
-			case *ssa.Parameter:
-				desc = "param " + x.Name()
-			case *ssa.Const:
-				if k, ok := constUint64(x); ok {
-					desc = fmt.Sprintf("const %d", k)
-				}
+				return []string{d}
 			}
-			okArg := false
-			switch role {
-			case "numDocs", "storedIndexOffset", "sectionsIndexOffset":
-				okArg = desc == "SegmentBase."+role || desc == "mergeToWriter."+role
-			case "fieldsIndexOffset":
-				// in the sections format the fields index offset points at the sections index
-				okArg = desc == "SegmentBase.fieldsIndexOffset" || desc == "mergeToWriter.sectionsIndexOffset"
-			case "docValueOffset":
-				okArg = desc == "SegmentBase.docValueOffset" || desc == "const 0"
-			case "chunkMode":
-				okArg = desc == "SegmentBase.chunkMode" || desc == "param chunkMode"
-			case "crcBeforeFooter":
-				okArg = desc == "SegmentBase.memCRC" || desc == "Sum32()"
-			case "writerIn":
-				okArg = true
-			default:
-				okArg = true
+			descs := []string{desc}
+			if desc == "" {
+				descs = describe(a, 0)
+			}
+			okArg := true
+			for _, desc = range descs {
+				okOne := false
+				switch role {
+				case "numDocs", "storedIndexOffset", "sectionsIndexOffset":
+					okOne = desc == "SegmentBase."+role || desc == "mergeToWriter."+role
+				case "fieldsIndexOffset":
+					// in the sections format the fields index offset points at the sections index
+					okOne = desc == "SegmentBase.fieldsIndexOffset" || desc == "mergeToWriter.sectionsIndexOffset" || desc == "SegmentBase.sectionsIndexOffset"
+				case "docValueOffset":
+					okOne = desc == "SegmentBase.docValueOffset" || desc == "const 0"
+				case "chunkMode":
+					okOne = desc == "SegmentBase.chunkMode" || desc == "param chunkMode"
+				case "crcBeforeFooter":
+					okOne = desc == "SegmentBase.memCRC" || desc == "Sum32()"
+				default:
+					okOne = true
+				}
+				if !okOne {
+					okArg = false
+					break
+				}
 			}
 			if !okArg {
 				bad = append(bad, fmt.Sprintf("argument for %s is %q", role, desc))
@@ -1262,6 +1289,12 @@ func ruleR13() *Rule {
 			counts := map[string]int{}
 			for _, s := range sites {
 				res := extractOf(s.call, 0)
+				// a probe: only the error is looked at, no chunk size is used anywhere
+				if res == nil || res.Referrers() == nil || len(nonDebugRefs(res)) == 0 {
+					c.ok(fmt.Sprintf("site/%s/probe", funcShortName(s.fn)), c.pos(s.call), "getChunkSize is called in "+funcShortName(s.fn)+" for its error only: no chunk size is derived here")
+					s.role = "probe"
+					continue
+				}
 				s.role = chunkRole(c.p, res)
 				args := s.call.Call.Args
 				mode := describeChunkArg(c.p, args[0], 0)
@@ -1528,4 +1561,14 @@ func describeChunkArgNoPhiLoop(p *Program, v ssa.Value, depth int, loop *ssa.Phi
 		}
 	}
 	return describeChunkArg(p, v, depth)
+}
+
+func nonDebugRefs(v ssa.Value) []ssa.Instruction {
+	var out []ssa.Instruction
+	for _, r := range *v.Referrers() {
+		if _, ok := r.(*ssa.DebugRef); !ok {
+			out = append(out, r)
+		}
+	}
+	return out
 }
